@@ -223,3 +223,99 @@ Theorem C11_counting_figure_is_encoded_size : forall addr_norm, addr_norm_sound 
   Z.of_N (CountDefs.popsize c) = StreamDefs.len (enc (c_popdata addr_norm) p).
 Proof. exact counting_figure_is_encoded_size. Qed.
 Print Assumptions C11_counting_figure_is_encoded_size.
+
+(** BFI bitcoin wire types (include/veriblock/bfi/bitcoin/serialize.hpp, transaction.hpp, block.hpp); model
+    coq/Bfi/BfiDefs.v, proofs coq/Bfi/BfiProofs.v. A C++ exception is the outcome [Err kind].
+    [codec_ok c wf] =
+       (forall a tl, wf a -> dec c (enc c a ++ tl) = Ok a tl)                       round trip, tail untouched
+    /\ (forall a, ssize c a = blen (enc c a))                                       GetSerializeSize = bytes written
+    /\ (forall bs a rest, dec c bs = Ok a rest -> wf a /\ bs = enc c a ++ rest)     what decodes is canonical *)
+From VB Require Bfi.BfiDefs Bfi.BfiProofs.
+
+Theorem C11_bfi_compact_size_round_trip : forall n tl, (n <= BfiDefs.MAX_SIZE)%N ->
+  BfiDefs.read_compact (BfiDefs.write_compact n ++ tl) = BfiDefs.Ok n tl.
+Proof. exact BfiProofs.compact_round_trip. Qed.
+Print Assumptions C11_bfi_compact_size_round_trip.
+
+Theorem C11_bfi_compact_size_length : forall n,
+  BfiDefs.blen (BfiDefs.write_compact n) = BfiDefs.size_of_compact n.
+Proof. exact BfiProofs.compact_size_length. Qed.
+Print Assumptions C11_bfi_compact_size_length.
+
+Theorem C11_bfi_compact_size_canonical : forall bs n rest, BfiDefs.read_compact bs = BfiDefs.Ok n rest ->
+  (n <= BfiDefs.MAX_SIZE)%N /\ bs = BfiDefs.write_compact n ++ rest.
+Proof. exact BfiProofs.compact_canonical. Qed.
+Print Assumptions C11_bfi_compact_size_canonical.
+
+Theorem C11_bfi_compact_size_injective : forall n m r r', (n <= BfiDefs.MAX_SIZE)%N -> (m <= BfiDefs.MAX_SIZE)%N ->
+  BfiDefs.write_compact n ++ r = BfiDefs.write_compact m ++ r' -> n = m /\ r = r'.
+Proof. exact BfiProofs.compact_injective. Qed.
+Print Assumptions C11_bfi_compact_size_injective.
+
+Theorem C11_bfi_compact_size_le253_writer_refuted :
+  ~ (forall n tl, (n <= BfiDefs.MAX_SIZE)%N ->
+       BfiDefs.read_compact (BfiDefs.write_compact_le253 n ++ tl) = BfiDefs.Ok n tl) /\
+  ~ (forall n, BfiDefs.blen (BfiDefs.write_compact_le253 n) = BfiDefs.size_of_compact n) /\
+  ~ (forall n, (n <= BfiDefs.MAX_SIZE)%N -> exists rest,
+       BfiDefs.read_compact (BfiDefs.write_compact_le253 n) = BfiDefs.Ok n rest).
+Proof. exact BfiProofs.compact_le253_refuted. Qed.
+Print Assumptions C11_bfi_compact_size_le253_writer_refuted.
+
+Theorem C11_bfi_uint_le : forall k, BfiDefs.codec_ok (BfiDefs.c_uint k) (BfiDefs.wf_uint k).
+Proof. exact BfiProofs.uint_ok. Qed.
+Print Assumptions C11_bfi_uint_le.
+
+Theorem C11_bfi_sint_le : forall k, BfiDefs.codec_ok (BfiDefs.c_sint k) (BfiDefs.wf_sint k).
+Proof. exact BfiProofs.sint_ok. Qed.
+Print Assumptions C11_bfi_sint_le.
+
+Theorem C11_bfi_blob : forall k, BfiDefs.codec_ok (BfiDefs.c_blob k) (BfiDefs.wf_blob k).
+Proof. exact BfiProofs.blob_ok. Qed.
+Print Assumptions C11_bfi_blob.
+
+Theorem C11_bfi_byte_vector : BfiDefs.codec_ok BfiDefs.c_bytes BfiDefs.wf_bytes.
+Proof. exact BfiProofs.bytes_ok. Qed.
+Print Assumptions C11_bfi_byte_vector.
+
+Theorem C11_bfi_vector : forall A (c : BfiDefs.codec A) wf, BfiDefs.codec_ok c wf ->
+  BfiDefs.codec_ok (BfiDefs.c_vec c) (BfiDefs.wf_vec wf).
+Proof. exact BfiProofs.vec_ok. Qed.
+Print Assumptions C11_bfi_vector.
+
+Theorem C11_bfi_vector_loop : forall A (d : list Byte.byte -> BfiDefs.res A) n bs,
+  BfiDefs.dec_count d n bs = BfiDefs.dec_rep d (N.to_nat n) bs.
+Proof. exact BfiProofs.dec_count_rep. Qed.
+Print Assumptions C11_bfi_vector_loop.
+
+Theorem C11_bfi_stream_reads : forall k n bs,
+  BfiDefs.read_le k bs = (if (length bs <? k)%nat then BfiDefs.Err BfiDefs.EEof
+                          else BfiDefs.Ok (BfiDefs.le_val (firstn k bs)) (skipn k bs)) /\
+  BfiDefs.read_bytes n bs = (if (BfiDefs.blen bs <? n)%N then BfiDefs.Err BfiDefs.EEof
+                             else BfiDefs.Ok (firstn (N.to_nat n) bs) (skipn (N.to_nat n) bs)).
+Proof. exact (fun k n bs => conj (BfiProofs.read_le_eq k bs) (BfiProofs.read_bytes_eq n bs)). Qed.
+Print Assumptions C11_bfi_stream_reads.
+
+Theorem C11_bfi_fields : forall A B (ca : BfiDefs.codec A) (cb : BfiDefs.codec B) wa wb,
+  BfiDefs.codec_ok ca wa -> BfiDefs.codec_ok cb wb -> BfiDefs.codec_ok (BfiDefs.c_pair ca cb) (BfiDefs.wf_pair wa wb).
+Proof. exact BfiProofs.pair_ok. Qed.
+Print Assumptions C11_bfi_fields.
+
+Theorem C11_bfi_canonical_encoding_injective : forall A (c : BfiDefs.codec A) wf, BfiDefs.codec_ok c wf ->
+  forall x y r r', wf x -> wf y -> BfiDefs.enc c x ++ r = BfiDefs.enc c y ++ r' -> x = y /\ r = r'.
+Proof. exact BfiProofs.codec_injective. Qed.
+Print Assumptions C11_bfi_canonical_encoding_injective.
+
+Theorem C11_bfi_reencode_stable : forall A (c : BfiDefs.codec A) wf, BfiDefs.codec_ok c wf ->
+  forall bs x rest tl, BfiDefs.dec c bs = BfiDefs.Ok x rest -> BfiDefs.dec c (BfiDefs.enc c x ++ tl) = BfiDefs.Ok x tl.
+Proof. exact BfiProofs.codec_reencode_stable. Qed.
+Print Assumptions C11_bfi_reencode_stable.
+
+Theorem C11_bfi_premises_satisfiable :
+  let v := ((Byte.x01 :: Byte.x02 :: nil) :: nil :: List.repeat Byte.xff 253 :: nil) in
+  BfiDefs.wf_vec BfiDefs.wf_bytes v /\
+  BfiDefs.dec (BfiDefs.c_vec BfiDefs.c_bytes) (BfiDefs.enc (BfiDefs.c_vec BfiDefs.c_bytes) v ++ Byte.xaa :: nil)
+    = BfiDefs.Ok v (Byte.xaa :: nil) /\
+  BfiDefs.ssize (BfiDefs.c_vec BfiDefs.c_bytes) v = 261%N /\
+  BfiDefs.blen (BfiDefs.enc (BfiDefs.c_vec BfiDefs.c_bytes) v) = 261%N.
+Proof. exact BfiProofs.vec_bytes_nontrivial. Qed.
+Print Assumptions C11_bfi_premises_satisfiable.
